@@ -247,7 +247,12 @@ def gen_op(w, rng, conf):
         pool = {"block": NAME_KINDS_BLOCK, "region": NAME_KINDS_REGION, "var": NAME_KINDS_VAR}[method]
         if rng.chance(0.25):
             pool = NAME_KINDS_BLOCK + NAME_KINDS_REGION + NAME_KINDS_VAR + NAME_KINDS_FREE
-        return {"op": "name", "method": method, "kind": rng.choice(pool), "where": path}
+        op = {"op": "name", "method": method, "kind": rng.choice(pool), "where": path}
+        if rng.chance(0.15):
+            # a burst of requests pushes the counter of that kind into two digits
+            # (multi-digit indices are where parsing of names can go wrong)
+            op["repeat"] = rng.randint(9, 13)
+        return op
     # edit
     path = rng.choice(paths) if (len(paths) > 1 and rng.chance(0.35)) else []
     if len(paths) > 1 and rng.chance(0.2):
@@ -683,8 +688,11 @@ def apply_op(w, op, conf):
             outcome = "skip"
         else:
             meth = {"block": "new_block_name", "region": "new_region_name", "var": "new_var_name"}[op["method"]]
-            getattr(G.name_gen, meth)(op["kind"])
-            w.stats["names"] += 1
+            for _rep in range(op.get("repeat", 1)):
+                getattr(G.name_gen, meth)(op["kind"])
+                w.stats["names"] += 1
+            if op.get("repeat"):
+                w.probe_hit("name-burst")
             if len(op["where"]) >= 2:
                 w.probe_hit("name-on-depth>=2")
     elif kind == "restart":
